@@ -336,6 +336,42 @@ var checkC18Engine = def("C18/engine", func(c engineDetCase) error {
 			return fmt.Errorf("%s: after Hash was switched on, used and switched off again the engine reports %v, an engine that never had a table %v", where, la, lb)
 		}
 	}
+	// a new game set up while an analysis is still running: what the engine then returns is what
+	// a fresh engine with the same seed returns (the halted search winds down on its own copies)
+	if c.Noise > 0 && c.Rounds >= 2 {
+		e4, err := mk()
+		if err != nil {
+			return err
+		}
+		for k := 0; k < 3; k++ {
+			if _, err := e4.Analyze(ctx, searchctl.Options{}); err != nil {
+				return err
+			}
+			if err := e4.Reset(ctx, c.FEN); err != nil {
+				return err
+			}
+			for _, mv := range c.Moves {
+				if err := e4.Move(ctx, mv); err != nil {
+					return err
+				}
+			}
+			a, err := analyzeToEnd(e4, c.Depth)
+			if err != nil {
+				return err
+			}
+			fresh, err := mk()
+			if err != nil {
+				return err
+			}
+			b, err := analyzeToEnd(fresh, c.Depth)
+			if err != nil {
+				return err
+			}
+			if len(a) == 0 || len(b) == 0 || !a[len(a)-1].equal(b[len(b)-1]) {
+				return fmt.Errorf("%s: set up again while an analysis was still running, the engine reports %v; a fresh engine with the same seed %v", where, a, b)
+			}
+		}
+	}
 	if c.Halt {
 		fen1, snap1 := e1.Position(), takeSnap(e1.Board())
 		if _, err := e1.Analyze(ctx, searchctl.Options{}); err != nil {
